@@ -93,7 +93,8 @@ def scenario_ops(name, nd, nblk=8):
 class Scn:
     """a reproducible array: build() creates it (replaying the phases with clean syncs), pending changes applied"""
 
-    def __init__(self, binary, shim, name, nd, np_, ncontent=1, nblk=8, splits=1, hashsize=None):
+    def __init__(self, binary, shim, name, nd, np_, ncontent=1, nblk=8, splits=1, hashsize=None, content_in_disks=False):
+        self.content_in_disks = content_in_disks     # content copies INSIDE the data disks (d1/, d2/), a third one outside
         self.binary, self.shim, self.name, self.nd, self.np, self.ncontent, self.nblk = binary, shim, name, nd, np_, ncontent, nblk
         self.splits, self.hashsize = splits, hashsize        # split parity / reduced hash size: version 3 content files
         self.pre, self.pend = scenario_ops(name, nd, nblk)
@@ -108,6 +109,13 @@ class Scn:
     def build(self, pending=True):
         a = Array(self.binary, nd=self.nd, np_=self.np, ncontent=self.ncontent, shim=self.shim, splits=self.splits, hashsize=self.hashsize)
         a.splits_, a.hashsize_ = self.splits, self.hashsize
+        if self.content_in_disks:
+            # the layout the manual recommends: `content /mnt/disk1/snapraid.content`
+            cfs = [os.path.join(a.root, d, 'snapraid.content') for d in a.disks[:2]][:self.ncontent]
+            cfs += a.content_files[len(cfs):self.ncontent]
+            lines = [l for l in open(a.conf).read().split('\n') if l and not l.startswith('content ')]
+            open(a.conf, 'w').write('\n'.join(lines + ['content %s' % c for c in cfs]) + '\n')
+            a.content_files = cfs
         for i, ph in enumerate(self.pre):
             self.apply(a, ph, T0 + i * 1000 * 10**9)
             r = a.run('sync')
